@@ -37,10 +37,14 @@ def _mk(cfg, form, typ, name, tail, port):
         return rl.entry(cfg, typ, name, "/p/" + tail, host=None, port=port, mimetype="text/plain")
     if form == 4:  # another host, default port
         return rl.entry(cfg, typ, name, "/h/" + tail, host="other.example", port=None, mimetype="text/plain")
+    if form == 6:  # a local selector that merely CONTAINS "URL:" (only a selector that starts with it is a URL link)
+        return rl.entry(cfg, typ, name, "/d/xURL:" + tail, mimetype="text/plain")
+    if form == 7:
+        return rl.entry(cfg, typ, name, "/r/URL:y" + tail, host="other.example", port=port, mimetype="text/plain")
     return rl.entry(cfg, "i", name, "fake", host="(NULL)", port=0)
 
 
-FORMS = ["local", "url", "remote", "port-only", "host-only", "info"]
+FORMS = ["local", "url", "remote", "port-only", "host-only", "info", "local-containing-URL:", "remote-containing-URL:"]
 
 
 def body_agree(kind: int, form: int, t: int, name: str, tail: str, port: int) -> bool:
@@ -95,7 +99,7 @@ def body_agree(kind: int, form: int, t: int, name: str, tail: str, port: int) ->
                 return k
         return None
 
-    if form == 0:
+    if form in (0, 6):
         wt = tok_of(e.selector)
         if kind == 3 and wt is not None:
             wt = "/wap" + wt
